@@ -484,6 +484,9 @@ func writeJSON(b *strings.Builder, v any) {
 	}
 }
 
+// NumEqual compares two JSON numbers by value (1e3 == 1000, 1.0 == 1).
+func NumEqual(a, b json.Number) bool { return numEqual(a, b) }
+
 // numEqual compares two JSON numbers by value (1e3 == 1000, 1.0 == 1).
 func numEqual(a, b json.Number) bool {
 	if a == b {
